@@ -1,4 +1,5 @@
 import BleveModel.Model.Phrase
+import BleveModel.Model.Query
 set_option linter.unusedSimpArgs false
 set_option linter.unusedVariables false
 /-!
@@ -303,5 +304,290 @@ example : phrasePaths (tlmOf [[1], [2], [3], [2]]) (single [[3], [1]]) 0 = [] :=
 example : phrasePaths (tlmOf [[1], [2], [3], [2]]) [[[1]], [], [[3]]] 0 ≠ [] := by decide
 example : phrasePaths (tlmOf [[1], [2], [3], [2]]) (single [[1], [3]]) 0 = [] ∧
     phrasePaths (tlmOf [[1], [2], [3], [2]]) (single [[1], [3]]) 1 ≠ [] := by decide
+
+/-! ### the phrase clause of the query model -/
+
+open Bleve.Query (phraseAt phraseIn)
+
+theorem phraseAt_iff_prefix (ts : List Term) (hne : ∀ t ∈ ts, t ≠ []) :
+    ∀ ws : List Term, phraseAt ts ws = ts.isPrefixOf ws := by
+  induction ts with
+  | nil => intro ws; simp [phraseAt, List.isPrefixOf]
+  | cons t ts ih =>
+    intro ws
+    have ht : t ≠ [] := hne t List.mem_cons_self
+    have hts : ∀ u ∈ ts, u ≠ [] := fun u hu => hne u (List.mem_cons_of_mem _ hu)
+    cases ws with
+    | nil => simp [phraseAt, List.isPrefixOf]
+    | cons w ws =>
+      have hte : t.isEmpty = false := by cases t <;> simp_all
+      simp only [phraseAt, List.isPrefixOf, hte, Bool.false_or, ih hts ws]
+
+theorem phraseIn_iff (ts : List Term) (hne : ∀ t ∈ ts, t ≠ []) (h0 : ts ≠ []) :
+    ∀ ws : List Term, phraseIn ts ws = true ↔ ∃ k, ts.isPrefixOf (ws.drop k) = true := by
+  intro ws
+  induction ws with
+  | nil =>
+    simp only [phraseIn, List.drop_nil]
+    cases ts with
+    | nil => exact absurd rfl h0
+    | cons t ts => simp [List.isPrefixOf]
+  | cons w ws ih =>
+    simp only [phraseIn, Bool.or_eq_true, phraseAt_iff_prefix ts hne, ih]
+    constructor
+    · rintro (h | ⟨k, hk⟩)
+      · exact ⟨0, by simpa using h⟩
+      · exact ⟨k + 1, by simpa using hk⟩
+    · rintro ⟨k, hk⟩
+      cases k with
+      | zero => left; simpa using hk
+      | succ k => right; exact ⟨k, by simpa using hk⟩
+
+/-- **The phrase clause of the query model and the matcher agree**: for a phrase of real words, a
+field value matches in the sense of `Model/Query.lean` exactly when `findPhrasePaths` finds a path over
+the value's term locations. -/
+theorem phrase_query_matcher (ws : List Term) (t0 : Term) (rest : List Term) (hne : ∀ t ∈ t0 :: rest, t ≠ []) :
+    phraseIn (t0 :: rest) ws = true ↔ phrasePaths (tlmOf ws) (single (t0 :: rest)) 0 ≠ [] := by
+  rw [phrase_exact ws t0 rest hne]
+  exact phraseIn_iff (t0 :: rest) hne (by simp) ws
+
+/-! ### phrases with placeholders -/
+
+/-- what the matcher does from a position on: a real word must stand there, a placeholder skips one
+position whether or not a word stands there -/
+def matchFrom : List Term → List Term → Bool
+  | [], _ => true
+  | t :: ts, ws =>
+    if t.isEmpty then matchFrom ts (ws.drop 1)
+    else match ws with
+      | w :: ws' => t == w && matchFrom ts ws'
+      | [] => false
+
+theorem single_placeholder (t : Term) : isPlaceholder [t] = t.isEmpty := by
+  cases t <;> simp [isPlaceholder]
+
+/-- after a part at `prevPos`, the rest of a phrase (placeholders allowed) is found iff it matches from there -/
+theorem findPaths_rest_gaps (ws : List Term) : ∀ (rest : List Term) (prevPos : Nat) (p : Path),
+    1 ≤ prevPos → Fresh (tlmOf ws) p prevPos →
+    (findPaths (tlmOf ws) (single rest) prevPos 0 p 0 ≠ [] ↔ matchFrom rest (ws.drop prevPos) = true) := by
+  intro rest
+  induction rest with
+  | nil => intro prevPos p _ _; simp [single, findPaths, matchFrom]
+  | cons t rest ih =>
+    intro prevPos p hpos hfresh
+    by_cases hte : t.isEmpty = true
+    · -- a placeholder: one position on, the path unchanged
+      have hp0' : (prevPos == 0) = false := by simp; omega
+      have hfresh' : Fresh (tlmOf ws) p (prevPos + 1) := by
+        intro x hx l hl; have := hfresh x hx l hl; omega
+      simp only [single, List.map_cons, findPaths, single_placeholder, hte, if_true, hp0', Bool.false_eq_true,
+        if_false, matchFrom, List.drop_drop]
+      have := ih (prevPos + 1) p (by omega) hfresh'
+      simp only [single] at this
+      rw [this]
+    · have hte' : t.isEmpty = false := by simpa using hte
+      have ht : t ≠ [] := by intro h; subst h; simp at hte'
+      have hph : isPlaceholder [t] = false := by rw [single_placeholder]; exact hte'
+      simp only [single, List.map_cons, findPaths, hph, Bool.false_eq_true, if_false, List.flatMap_cons,
+        List.flatMap_nil, List.append_nil, matchFrom, hte']
+      rw [flatMap_ne_nil]
+      constructor
+      · rintro ⟨⟨l, i⟩, hmem, hne'⟩
+        have hget : (locsOf (tlmOf ws) t)[i]? = some l := List.mem_zipIdx_iff_getElem?.mp hmem
+        have hloc : l ∈ locsOf (tlmOf ws) t := List.mem_of_getElem? hget
+        obtain ⟨hap, hp1, hw⟩ := (mem_locsOf ws t l).mp hloc
+        cases hadm : admits prevPos 0 p 0 t i l with
+        | none => simp [hadm] at hne'
+        | some s =>
+          obtain ⟨_, hpos', _, hs⟩ := (admits_zero prevPos hpos p t i l s).mp hadm
+          subst hs
+          simp only [hadm] at hne'
+          rw [hap] at hne'
+          have hfresh' := fresh_snoc (tlmOf ws) p prevPos t i l hfresh (by omega) hget
+          have := (ih l.pos (p ++ [⟨t, i, l⟩]) (by omega) hfresh').mp (by simpa [single] using hne')
+          rw [hpos'] at this hw
+          have hw' : ws[prevPos]? = some t := by simpa using hw
+          rw [drop_cons_of_getElem? ws prevPos t hw']
+          simp [this]
+      · intro hm
+        cases hd : ws.drop prevPos with
+        | nil => rw [hd] at hm; simp at hm
+        | cons w tl =>
+          rw [hd] at hm
+          simp only [Bool.and_eq_true, beq_iff_eq] at hm
+          have hk : prevPos < ws.length := by
+            rcases Nat.lt_or_ge prevPos ws.length with h1 | h1
+            · exact h1
+            · rw [List.drop_eq_nil_of_le h1] at hd; simp at hd
+          rw [List.drop_eq_getElem_cons hk] at hd
+          simp only [List.cons.injEq] at hd
+          have hw : ws[prevPos]? = some t := by rw [List.getElem?_eq_getElem hk, hd.1, hm.1]
+          have hpre : matchFrom rest (ws.drop (prevPos + 1)) = true := by rw [hd.2]; exact hm.2
+          have hloc : (⟨prevPos + 1, 0⟩ : Loc) ∈ locsOf (tlmOf ws) t :=
+            (mem_locsOf ws t ⟨prevPos + 1, 0⟩).mpr ⟨rfl, by simp, by simpa using hw⟩
+          obtain ⟨i, hget⟩ := List.mem_iff_getElem?.mp hloc
+          refine ⟨(⟨prevPos + 1, 0⟩, i), List.mem_zipIdx_iff_getElem?.mpr hget, ?_⟩
+          have hnot : (p.any (fun x => x.term == t && x.idx == i)) = false := by
+            rw [Bool.eq_false_iff]
+            intro hany
+            rw [List.any_eq_true] at hany
+            obtain ⟨x, hx, hxe⟩ := hany
+            simp only [Bool.and_eq_true, beq_iff_eq] at hxe
+            have := hfresh x hx ⟨prevPos + 1, 0⟩ (by rw [hxe.1, hxe.2]; exact hget)
+            simp only [] at this
+            omega
+          have hadm : admits prevPos 0 p 0 t i ⟨prevPos + 1, 0⟩ = some 0 :=
+            (admits_zero prevPos hpos p t i ⟨prevPos + 1, 0⟩ 0).mpr ⟨rfl, rfl, hnot, rfl⟩
+          simp only [hadm]
+          have hfresh' := fresh_snoc (tlmOf ws) p prevPos t i ⟨prevPos + 1, 0⟩ hfresh (by simp) hget
+          have := (ih (prevPos + 1) _ (by omega) hfresh').mpr hpre
+          simpa [single] using this
+
+/-- the phrase does not end in a placeholder -/
+def lastReal : List Term → Bool
+  | [] => false
+  | [t] => !t.isEmpty
+  | _ :: t :: ts => lastReal (t :: ts)
+
+theorem matchFrom_nil : ∀ (ts : List Term), lastReal ts = true → matchFrom ts [] = false := by
+  intro ts
+  induction ts with
+  | nil => intro h; simp [lastReal] at h
+  | cons t ts ih =>
+    intro h
+    cases ts with
+    | nil =>
+      have hte : t.isEmpty = false := by simpa [lastReal] using h
+      rw [matchFrom.eq_def]; simp [hte]
+    | cons t' r =>
+      have h' : lastReal (t' :: r) = true := by simpa [lastReal] using h
+      by_cases hte : t.isEmpty = true
+      · rw [matchFrom.eq_def]; simp only [hte, if_true, List.drop_nil]
+        exact ih h'
+      · have : t.isEmpty = false := by simpa using hte
+        rw [matchFrom.eq_def]; simp [this]
+
+theorem matchFrom_empty (t : Term) (ts ws : List Term) (h : t.isEmpty = true) :
+    matchFrom (t :: ts) ws = matchFrom ts (ws.drop 1) := by
+  rw [matchFrom.eq_def]; simp [h]
+
+theorem matchFrom_real_cons (t : Term) (ts : List Term) (w : Term) (ws : List Term) (h : t.isEmpty = false) :
+    matchFrom (t :: ts) (w :: ws) = (t == w && matchFrom ts ws) := by
+  rw [matchFrom.eq_def]; simp [h]
+
+theorem matchFrom_real_nil (t : Term) (ts : List Term) (h : t.isEmpty = false) :
+    matchFrom (t :: ts) [] = false := by
+  rw [matchFrom.eq_def]; simp [h]
+
+/-- a phrase that ends in a real word: the query model's reading and the matcher's are the same -/
+theorem phraseAt_eq_matchFrom : ∀ (ts : List Term), lastReal ts = true → ∀ ws, phraseAt ts ws = matchFrom ts ws := by
+  intro ts
+  induction ts with
+  | nil => intro h; simp [lastReal] at h
+  | cons t ts ih =>
+    intro h ws
+    cases ts with
+    | nil =>
+      have hte : t.isEmpty = false := by simpa [lastReal] using h
+      cases ws with
+      | nil => rw [matchFrom_real_nil t [] hte]; simp [phraseAt]
+      | cons w ws' => rw [matchFrom_real_cons t [] w ws' hte]; simp [phraseAt, matchFrom, hte]
+    | cons t' r =>
+      have h' : lastReal (t' :: r) = true := by simpa [lastReal] using h
+      cases ws with
+      | nil =>
+        by_cases hte : t.isEmpty = true
+        · rw [matchFrom_empty t _ _ hte, List.drop_nil, matchFrom_nil _ h']; simp [phraseAt]
+        · have hte' : t.isEmpty = false := by simpa using hte
+          rw [matchFrom_real_nil t _ hte']; simp [phraseAt]
+      | cons w ws' =>
+        by_cases hte : t.isEmpty = true
+        · rw [matchFrom_empty t _ _ hte]
+          simp only [phraseAt, hte, Bool.true_or, Bool.true_and, List.drop_one, List.tail_cons]
+          exact ih h' ws'
+        · have hte' : t.isEmpty = false := by simpa using hte
+          rw [matchFrom_real_cons t _ w ws' hte']
+          simp only [phraseAt, hte', Bool.false_or]
+          rw [ih h' ws']
+
+theorem phraseIn_iff_at (ts : List Term) (h0 : ts ≠ []) :
+    ∀ ws : List Term, phraseIn ts ws = true ↔ ∃ k, phraseAt ts (ws.drop k) = true := by
+  intro ws
+  have hnil : phraseAt ts [] = false := by
+    cases ts with
+    | nil => exact absurd rfl h0
+    | cons t r => simp [phraseAt]
+  induction ws with
+  | nil =>
+    simp only [phraseIn, List.drop_nil, hnil]
+    cases ts with
+    | nil => exact absurd rfl h0
+    | cons t r => simp
+  | cons w ws ih =>
+    simp only [phraseIn, Bool.or_eq_true, ih]
+    constructor
+    · rintro (h | ⟨k, hk⟩)
+      · exact ⟨0, by simpa using h⟩
+      · exact ⟨k + 1, by simpa using hk⟩
+    · rintro ⟨k, hk⟩
+      cases k with
+      | zero => left; simpa using hk
+      | succ k => right; exact ⟨k, by simpa using hk⟩
+
+/-- **Phrases with gaps.**  For a phrase that starts and ends with a real word (placeholders for
+removed words in between), a field value matches in the sense of `Model/Query.lean` exactly when
+`findPhrasePaths` finds a path over the value's term locations. -/
+theorem phrase_gaps_query_matcher (ws : List Term) (t0 : Term) (rest : List Term) (ht0 : t0 ≠ [])
+    (hl : lastReal (t0 :: rest) = true) :
+    phraseIn (t0 :: rest) ws = true ↔ phrasePaths (tlmOf ws) (single (t0 :: rest)) 0 ≠ [] := by
+  rw [phraseIn_iff_at (t0 :: rest) (by simp) ws]
+  have hte : t0.isEmpty = false := by cases t0 <;> simp_all
+  have hph : isPlaceholder [t0] = false := by rw [single_placeholder]; exact hte
+  unfold phrasePaths
+  simp only [single, List.map_cons, findPaths, hph, Bool.false_eq_true, if_false, List.flatMap_cons,
+    List.flatMap_nil, List.append_nil]
+  rw [flatMap_ne_nil]
+  constructor
+  · rintro ⟨k, hk⟩
+    rw [phraseAt_eq_matchFrom _ hl] at hk
+    cases hd : ws.drop k with
+    | nil => rw [hd, matchFrom_real_nil t0 rest hte] at hk; simp at hk
+    | cons w tl =>
+      rw [hd, matchFrom_real_cons t0 rest w tl hte] at hk
+      simp only [Bool.and_eq_true, beq_iff_eq] at hk
+      have hklt : k < ws.length := by
+        rcases Nat.lt_or_ge k ws.length with h1 | h1
+        · exact h1
+        · rw [List.drop_eq_nil_of_le h1] at hd; simp at hd
+      rw [List.drop_eq_getElem_cons hklt] at hd
+      simp only [List.cons.injEq] at hd
+      have hw : ws[k]? = some t0 := by rw [List.getElem?_eq_getElem hklt, hd.1, hk.1]
+      have hpre : matchFrom rest (ws.drop (k + 1)) = true := by rw [hd.2]; exact hk.2
+      have hloc : (⟨k + 1, 0⟩ : Loc) ∈ locsOf (tlmOf ws) t0 :=
+        (mem_locsOf ws t0 ⟨k + 1, 0⟩).mpr ⟨rfl, by simp, by simpa using hw⟩
+      obtain ⟨i, hget⟩ := List.mem_iff_getElem?.mp hloc
+      refine ⟨(⟨k + 1, 0⟩, i), List.mem_zipIdx_iff_getElem?.mpr hget, ?_⟩
+      simp only [admits_first]
+      have hfresh : Fresh (tlmOf ws) ([] ++ [⟨t0, i, ⟨k + 1, 0⟩⟩]) (k + 1) :=
+        fresh_snoc (tlmOf ws) [] 0 t0 i ⟨k + 1, 0⟩ (by intro x hx; simp at hx) (by simp) hget
+      have := (findPaths_rest_gaps ws rest (k + 1) ([] ++ [⟨t0, i, ⟨k + 1, 0⟩⟩]) (by omega) hfresh).mpr hpre
+      simpa [single] using this
+  · rintro ⟨⟨l, i⟩, hmem, hne'⟩
+    have hget : (locsOf (tlmOf ws) t0)[i]? = some l := List.mem_zipIdx_iff_getElem?.mp hmem
+    have hloc : l ∈ locsOf (tlmOf ws) t0 := List.mem_of_getElem? hget
+    obtain ⟨hap, hp1, hw⟩ := (mem_locsOf ws t0 l).mp hloc
+    simp only [admits_first] at hne'
+    rw [hap] at hne'
+    have hfresh : Fresh (tlmOf ws) ([] ++ [⟨t0, i, l⟩]) l.pos :=
+      fresh_snoc (tlmOf ws) [] 0 t0 i l (by intro x hx; simp at hx) (by omega) hget
+    have hm := (findPaths_rest_gaps ws rest l.pos ([] ++ [⟨t0, i, l⟩]) hp1 hfresh).mp (by simpa [single] using hne')
+    refine ⟨l.pos - 1, ?_⟩
+    rw [phraseAt_eq_matchFrom _ hl, drop_cons_of_getElem? ws (l.pos - 1) t0 hw, matchFrom_real_cons t0 rest _ _ hte]
+    have e : l.pos - 1 + 1 = l.pos := by omega
+    simp only [beq_self_eq_true, Bool.true_and, e]
+    exact hm
+
+example : phrasePaths (tlmOf [[1], [2], [3], [2]]) (single [[1], [], [3]]) 0 ≠ [] ∧
+    phraseIn [[1], [], [3]] [[1], [2], [3], [2]] = true := by decide
 
 end Bleve.Phrase
